@@ -206,53 +206,63 @@ func c36GapMasks(nseg int, all bool) []int {
 	return []int{0, 1 << (nseg - 2)}
 }
 
-// c36Sets enumerates the segment sets, simplest first. f is called with (index, set).
+// c36Sets enumerates the segment sets, simplest first: families F1 then F2 over the layouts of at
+// most 3 records, then F1 and F2 over the larger layouts. f is called with (index, set).
 func c36Sets(b c36Bounds, f func(i int, set c36Set) bool) int {
 	i := 0
-	// family F1: complete segments, full timestamp product
-	for _, layout := range b.Layouts {
+	size := func(layout []int) int {
 		n := 0
 		for _, k := range layout {
 			n += k
 		}
-		for _, gm := range c36GapMasks(len(layout), b.AllGaps) {
-			for p1 := 0; p1 < b.P1; p1++ {
-				for tsIdx := 0; tsIdx < c36Pow(len(b.TS), n); tsIdx++ {
-					segs := c36P0(layout, gm, b.TS, tsIdx)
-					segs = append(segs, c36P1Variants[p1]...)
-					set := c36Set{Segs: segs, Label: fmt.Sprintf("F1 layout=%v gaps=%b p1=%d ts#%d", layout, gm, p1, tsIdx)}
-					if !f(i, set) {
-						return i
-					}
-					i++
-				}
+		return n
+	}
+	for _, large := range []bool{false, true} {
+		var layouts [][]int
+		for _, l := range b.Layouts {
+			if (size(l) > 3) == large {
+				layouts = append(layouts, l)
 			}
 		}
-	}
-	// family F2: one segment of partition 0 is not completed (index object missing / footer magic missing)
-	for _, layout := range b.Layouts {
-		if len(layout) < 2 {
-			continue
-		}
-		n := 0
-		for _, k := range layout {
-			n += k
-		}
-		masks := []int{0}
-		if b.F2Gaps {
-			masks = c36GapMasks(len(layout), true)
-		}
-		for _, gm := range masks {
-			for seg := 0; seg < len(layout); seg++ {
-				for _, kind := range []string{"no-index", "no-footer"} {
-					for tsIdx := 0; tsIdx < c36Pow(len(b.F2TS), n); tsIdx++ {
-						segs := c36P0(layout, gm, b.F2TS, tsIdx)
-						segs[seg].Incomplete = kind
-						set := c36Set{Segs: segs, Label: fmt.Sprintf("F2 layout=%v gaps=%b seg%d=%s ts#%d", layout, gm, seg, kind, tsIdx)}
+		// family F1: complete segments, full timestamp product
+		for _, layout := range layouts {
+			n := size(layout)
+			for _, gm := range c36GapMasks(len(layout), b.AllGaps) {
+				for p1 := 0; p1 < b.P1; p1++ {
+					for tsIdx := 0; tsIdx < c36Pow(len(b.TS), n); tsIdx++ {
+						segs := c36P0(layout, gm, b.TS, tsIdx)
+						segs = append(segs, c36P1Variants[p1]...)
+						set := c36Set{Segs: segs, Label: fmt.Sprintf("F1 layout=%v gaps=%b p1=%d ts#%d", layout, gm, p1, tsIdx)}
 						if !f(i, set) {
 							return i
 						}
 						i++
+					}
+				}
+			}
+		}
+		// family F2: one segment of partition 0 is not completed (index object missing / footer magic missing)
+		for _, layout := range layouts {
+			if len(layout) < 2 {
+				continue
+			}
+			n := size(layout)
+			masks := []int{0}
+			if b.F2Gaps {
+				masks = c36GapMasks(len(layout), true)
+			}
+			for _, gm := range masks {
+				for seg := 0; seg < len(layout); seg++ {
+					for _, kind := range []string{"no-index", "no-footer"} {
+						for tsIdx := 0; tsIdx < c36Pow(len(b.F2TS), n); tsIdx++ {
+							segs := c36P0(layout, gm, b.F2TS, tsIdx)
+							segs[seg].Incomplete = kind
+							set := c36Set{Segs: segs, Label: fmt.Sprintf("F2 layout=%v gaps=%b seg%d=%s ts#%d", layout, gm, seg, kind, tsIdx)}
+							if !f(i, set) {
+								return i
+							}
+							i++
+						}
 					}
 				}
 			}
@@ -753,6 +763,9 @@ func c36Check(q c36Query, truth []c36Row, ans c36Answer, segs []discovery.Segmen
 					continue
 				}
 				if (q.Mode == "asc" && r.TS < worst) || (q.Mode == "desc" && r.TS > worst) {
+					if key, why := c36Diagnose(q, r, segs); key != "matching-row-dropped-after-decoding" {
+						return sig + "/not-top", &c36Finding{Key: key, Detail: fmt.Sprintf("%q: the matching row partition %d offset %d ts %d is excluded although it sorts strictly before an included row (%s)", q.Text, r.P, r.Off, r.TS, why)}
+					}
 					return sig + "/not-top", &c36Finding{Key: "order-by-limit-not-the-first-rows", Detail: fmt.Sprintf("%q: excluded row ts %d is strictly before included row ts %d", q.Text, r.TS, worst)}
 				}
 			}
@@ -765,6 +778,9 @@ func c36Check(q c36Query, truth []c36Row, ans c36Answer, segs []discovery.Segmen
 			}
 			for _, g := range got {
 				if g.P == r.P && g.Off < r.Off {
+					if key, why := c36Diagnose(q, r, segs); key != "matching-row-dropped-after-decoding" {
+						return sig + "/not-tail", &c36Finding{Key: key, Detail: fmt.Sprintf("%q: the matching row partition %d offset %d is excluded while the lower offset %d is included (%s)", q.Text, r.P, r.Off, g.Off, why)}
+					}
 					return sig + "/not-tail", &c36Finding{Key: "tail-not-the-last-rows", Detail: fmt.Sprintf("%q: partition %d offset %d is excluded while the lower offset %d is included", q.Text, r.P, r.Off, g.Off)}
 				}
 			}
